@@ -150,22 +150,22 @@ def run(res, tier):
     mprop.finish_engine(res, E)
 
 
-def check_cli_policy(res, E):
-    """--stale on the command line overrides the configured policy whenever it is given (whatever its value), and
-    leaves it alone when absent: the slice of Config::apply_arg_matches that handles the option."""
+def check_cli_policy(res, E, name="stale", flag="--stale", consequence="a config file's accept/warn can survive an explicit --stale reject"):
+    """A policy option on the command line overrides the configured policy whenever it is given (whatever its value),
+    and leaves it alone when absent: the slice of Config::apply_arg_matches that handles the option."""
     import z3
     import mir
     import argslice
-    sl = argslice.arg_slice(E, "stale")
+    sl = argslice.arg_slice(E, name)
     if sl is None:
-        res.inconclusive.append("apply_arg_matches: the blocks handling --stale were not found")
+        res.inconclusive.append("apply_arg_matches: the blocks handling %s were not found" % flag)
         return
     b2, local, ia, start, end = sl
-    res.functions.append("routinator::config::Config::apply_arg_matches, slice %s..%s handling --stale (MIR)" % (start, end))
+    res.functions.append("routinator::config::Config::apply_arg_matches, slice %s..%s handling %s (MIR)" % (start, end, flag))
     cf = mir.struct_fields("Config", "src/config.rs")
-    ic = cf.index("stale")
+    ic = cf.index(name)
     selfp = mir.Opq("&mut Config", "self")
-    c0 = z3.Int("configured_stale_policy")
+    c0 = z3.Int("configured_%s_policy" % name)
     base = (("o", selfp.id), "deref", ("f", ic))
 
     def pre(E_, st, frame):
@@ -177,7 +177,7 @@ def check_cli_policy(res, E):
         n += 1
         ad, pay = argslice.arg_leaves(p, local, ia)
         if ad is None:
-            res.inconclusive.append("apply_arg_matches --stale slice path %d: the argument was not read" % i)
+            res.inconclusive.append("apply_arg_matches %s slice path %d: the argument was not read" % (flag, i))
             continue
         pv = p.mem.get(("F1:%s" % local, ("f", ia), ("v", "Some"), ("f", 0)))
         post = p.mem.get(base)
@@ -190,18 +190,18 @@ def check_cli_policy(res, E):
         if given_forced:
             if not (post is not None and pv is not None and same(post, pv)):
                 bad = E.model(p.cond, z3.BoolVal(True))
-                what = "--stale is given, yet the policy in force afterwards is not the given value (it stays the configured one or becomes %r)" % (post,)
+                what = "%s is given, yet the policy in force afterwards is not the given value (it stays the configured one or becomes %r)" % (flag, post)
         elif absent_forced:
             if post is not None or not (mir.is_z(post_d) and post_d.eq(c0)):
                 bad = E.model(p.cond, z3.BoolVal(True))
-                what = "--stale is absent, yet the configured policy is overwritten"
+                what = "%s is absent, yet the configured policy is overwritten" % flag
         else:
-            res.inconclusive.append("apply_arg_matches --stale slice path %d does not depend on whether the option was given" % i)
+            res.inconclusive.append("apply_arg_matches %s slice path %d does not depend on whether the option was given" % (flag, i))
             continue
         if bad is not None:
-            fn = mprop.write_cex(res, "cli_stale_%d" % i, p, E, what, bad)
-            res.violation("mir:cli-stale-not-applied", "the command line's --stale is not applied as given (%s): a config file's accept/warn can survive an explicit --stale reject" % what, fn)
+            fn = mprop.write_cex(res, "cli_%s_%d" % (name, i), p, E, what, bad)
+            res.violation("mir:cli-%s-not-applied" % name.replace("_", "-"), "the command line's %s is not applied as given (%s): %s" % (flag, what, consequence), fn)
             break
     res.distinct += n
     if n < 2:
-        res.inconclusive.append("vacuity: --stale slice has %d returning paths" % n)
+        res.inconclusive.append("vacuity: %s slice has %d returning paths" % (flag, n))
